@@ -32,7 +32,8 @@ def run(env, rep):
         "continuation chunks); R4: the 24-bit field is capped at 0xFFFFFF and the extended field carries the uncapped value exactly "
         "when the field is >= 0xFFFFFF; R5: max_chunk_size is stored only after the SetChunkSize message carrying the same value was "
         "serialized under the old size; R7 (= the writer clauses of C01 R3): the continuation chunks of a message repeat the timestamp field "
-        "(and therefore the extended timestamp) of the chunk that started it, and the header remembered per chunk stream is the one that was written.  Not decided: parsing by an independent decoder, per-chunk payload <= chunk size.")
+        "(and therefore the extended timestamp) of the chunk that started it, and the header remembered per chunk stream is the one that was written; R8 (= C19 R1 for the serializer): the chunk size in force is always in [1, 2^31-1], the values a SetChunkSize message can announce - "
+        "a size the announcement cannot carry would be announced as something else than what is used.  Not decided: parsing by an independent decoder, per-chunk payload <= chunk size.")
     spec = chunk.load_spec()
     m = chunk.ChunkModel(env, rep, "C07.anchors")
     if not m.ok:
@@ -241,3 +242,7 @@ def run(env, rep):
     if wants(rep, "C07.R7"):
         from . import C01
         C01.run(env, PrefixReport(rep, "C01.R3", "C07.R7", only=("C01.R3",), keys=lambda k: not str(k).startswith("reader:")))
+    # ------------------------------------------------------------------ R8 only announceable chunk sizes are ever in force
+    if wants(rep, "C07.R8"):
+        from . import C19
+        C19.run(env, PrefixReport(rep, "C19.R1", "C07.R8", only=("C19.R1",), keys=lambda k: "ChunkSerializer" in str(k) or "anchor" in str(k)))
